@@ -508,6 +508,7 @@ static void case_frames(long idx, Rng& r) {
         // pick the station: the cipher decides for WPA2
         std::vector<int> cand; for (int i = 0; i < 4; ++i) if (cipher == 0 || w.sta[i].key.ccmp == (cipher == 2)) cand.push_back(i);
         const Sta& s = w.sta[cand[r.below((u32)cand.size())]]; const Mac& ap = w.ap[s.ap]; Mac third = r.chance(1, 6) ? ap : w.fresh(r);
+        if (cipher == 0) while (m.wep.count(third) && m.wep[third] != w.wep[s.ap]) third = w.fresh(r);      // low-entropy addresses repeat within a case: not one that an earlier four-address frame registered with the other network's key
         int variant = cipher == 0 ? (int)r.below(4) : (int)r.below(3);
         Hdr h = gen_hdr(r, variant, ap, s.mac, third, qos, special == 4 && qos);
         if (special == 2 && variant == 2) h.a3 = w.fresh(r);                                          // four-address frame whose DA is not the receiver
